@@ -24,11 +24,11 @@ Step ==
         /\ UNCHANGED desc
      ELSE
         LET o == [s2i |-> e.s2i, nob64 |-> e.nob64, disallow |-> e.disallow, wreq |-> e.wreq, wdef |-> e.wdef, wopt |-> e.wopt,
-                  optbm |-> e.optbm, usedflt |-> e.usedflt]
+                  optbm |-> e.optbm, usedflt |-> e.usedflt, vm |-> ("vm" \in DOMAIN e /\ e.vm)]
             exp == J2TV(e.d, desc.from, desc.structs, o)
             optDefault == e.optbm /\ ~e.wopt /\ \E n \in DOMAIN desc.structs : \E k \in 1..Len(desc.structs[n]) :
                                                        desc.structs[n][k].req = "opt" /\ desc.structs[n][k].hasd
-            feat == IF e.variant = "b64-escaped" THEN "b64-escaped" ELSE IF HasNegZeroIntLit(e.d) THEN "negzero-int-literal"
+            feat == IF e.variant \in {"b64-escaped", "jsconv-i16", "jsconv-null", "jsconv-escaped"} THEN e.variant ELSE IF HasNegZeroIntLit(e.d) THEN "negzero-int-literal"
                     ELSE IF optDefault THEN "optional-with-default-without-WriteOptionalField" ELSE ""
         IN
         /\ \A j \in 1..Len(e.res) :
